@@ -399,20 +399,21 @@ PROPS["C12"] = {'claimed': True,
                "histories, 0 divergences). Theorems are about a single station's poll function; 'token visit' is abstracted as: one visit = one poll "
                'in PassToken{do_gap: Yes} that gets past the synchronisation pause (proved to perform exactly one GAP step; the ghost-counter '
                'theorem shows there is at most one GAP request between token transmissions). The timing theorem assumes an idle bus after the '
-               "request (empty receive buffer, PHY not busy) and polls at most P apart; the requester side of 'within the slot time' (the requester "
-               'looks for new bytes before it tests its slot timer) is argued in the comment of C12_status_reply_in_slot, not proved as a '
-               'two-station theorem.',
- 'partial_gap': 'PROVED (coq/Properties/C12.v, 23 theorems): C12_poll_transmissions, C12_poll_in_gap (whole poll), '
+               "request (empty receive buffer, PHY not busy) and polls at most P apart; the requester side of 'within the slot time' is the one-step "
+               "theorem C12_requester_keeps_waiting (new bytes restart the requester's slot timer before it is tested; no time-out up to Tslot after "
+               'its time stamp); responder and requester halves are not composed into one two-station theorem.',
+ 'partial_gap': 'PROVED (coq/Properties/C12.v, 24 theorems): C12_poll_transmissions, C12_poll_in_gap (whole poll), '
                 'C12_after_gap_request_only_the_token, C12_one_per_visit (ghost counter over poll histories), C12_visit_performs_gap_step, '
                 'C12_gap_state_frame, C12_claim_scan_back_to_back, C12_sweep_bound, C12_gap_size_counts, C12_found_becomes_successor, '
                 'C12_set_next_station_effect, C12_found_gets_next_token, C12_successor_unchanged_otherwise, C12_status_reply_truth, '
-                'C12_reply_state_truth, C12_status_request_must_be_last, C12_status_reply_in_slot, C12_slot_time_covers_reply, and the earlier '
-                'function-level C12_next_gap_poll_in_gap, C12_in_gapb_spec, C12_sweep_end_resets_wait, C12_pass_token_polls_in_gap, '
-                'C12_claim_scan_polls_in_gap. NOT PROVED: a multi-station statement (that the token really comes back |GAP| + wait + 2 times, that '
-                "successors 'learnt from witnessed passes' during a sweep keep the bound - the bound is per constant NS, every NS change restarts it "
-                'from an arbitrary GAP state, which the theorem covers); the sweep bound is stated over the sequence of GAP steps, tied to polls by '
-                'the one-step theorems rather than by one end-to-end history theorem; the requester-side half of the slot-time argument. ONLY '
-                'VALIDATED: model = crate (differential), monitor on transcripts.',
+                'C12_reply_state_truth, C12_status_request_must_be_last, C12_status_reply_in_slot, C12_slot_time_covers_reply, '
+                'C12_requester_keeps_waiting, and the earlier function-level C12_next_gap_poll_in_gap, C12_in_gapb_spec, C12_sweep_end_resets_wait, '
+                'C12_pass_token_polls_in_gap, C12_claim_scan_polls_in_gap. NOT PROVED: a multi-station statement (that the token really comes back '
+                "|GAP| + wait + 2 times, that successors 'learnt from witnessed passes' during a sweep keep the bound - the bound is per constant "
+                'NS, every NS change restarts it from an arbitrary GAP state, which the theorem covers); the sweep bound is stated over the sequence '
+                'of GAP steps, tied to polls by the one-step theorems rather than by one end-to-end history theorem; the composition of the '
+                'responder half (C12_status_reply_in_slot) and the requester half (C12_requester_keeps_waiting) of the slot-time argument into one '
+                'two-station theorem. ONLY VALIDATED: model = crate (differential), monitor on transcripts.',
  'design_ref': 'DESIGN.md section 4, C12',
  'assumptions': ['single station']}
 
